@@ -69,6 +69,25 @@ LoopF(cfg, opts, r) ==
                   IN LoopF(cfg, opts, [st |-> TickF(opts, RecordF(cfg, opts, p)),
                                        lg |-> AppendLogs(cfg, opts, r.lg, p)])
 
+\* project.initialize(state_info, log_info) on a project in state/logs r = [st, lg]
+\*  log_info:   time, cost list, mode, status and every log are reset
+\*  state_info: resources FREE and unassigned, workplaces empty, tasks reset (FINISHED by default
+\*              progress only when log_info is given too), PERT at time 0, READY check, components
+InitializeFlagsF(cfg, r, stateInfo, logInfo) ==
+  LET s0 == IF logInfo THEN [r.st EXCEPT !.time = 0, !.status = "NONE", !.mode = "NONE",
+                                         !.rc = [t \in Tasks(cfg) |-> 0]]
+            ELSE r.st
+      l0 == IF logInfo THEN EmptyLogs(cfg) ELSE r.lg
+      blank == BlankState(cfg)
+      s1 == IF ~stateInfo THEN s0
+            ELSE LET reset == [blank EXCEPT !.time = s0.time, !.status = s0.status, !.mode = s0.mode,
+                                            !.rc = s0.rc,
+                                            !.ts = [t \in Tasks(cfg) |->
+                                                      IF logInfo THEN InitTaskState(cfg, t) ELSE "NONE"]]
+                     pert == PertF(cfg, [reset EXCEPT !.time = 0])
+                 IN CompStateF(cfg, ReadyF(cfg, [pert EXCEPT !.time = s0.time]))
+  IN [st |-> s1, lg |-> Header(l0, s1, [absL |-> l0.absL])]
+
 \* simulate() with both initialize flags on
 SimulateF(cfg, opts) == LoopF(cfg, opts, [st |-> InitF(cfg), lg |-> EmptyLogs(cfg)])
 \* simulate(initialize_state_info=False, initialize_log_info=False) on result r
